@@ -280,7 +280,10 @@ class WebSocket:  # pragma: no cover
         event = await self.asgi_receive()
         if event['type'] != 'websocket.receive':
             raise OSError()
-        return event.get('bytes') or event.get('text')
+        data = event.get('bytes')
+        if data is None:
+            data = event.get('text')
+        return data
 
 
 _async = {
